@@ -42,7 +42,7 @@ manifest = {
         "name": "hsa",
         "path": "/verif/hsa",
         "serves_properties": [c["property_id"] for c in checks],
-        "kind_free_text": "repo-specific static analysis over Python AST: constant folder, guard/dominance extraction, path-sensitive structured flow walker, stack-effect abstract interpreter, table/sibling agreement; stdlib only; halmos is never imported or run",
+        "kind_free_text": "repo-specific static analysis over Python AST: constant folder, guard/dominance extraction, path-sensitive structured flow walker, stack-effect abstract interpreter, table/sibling agreement; a reference-alignment layer (alpha-renaming, wrapper inlining, re-nesting of moved closures, path-summary equivalence with the reviewed snapshot, effect analysis) makes the rules insensitive to behaviour-preserving rewrites; stdlib only; halmos is never imported or run",
     }],
     "checks": checks,
     "not_applicable": na,
